@@ -76,6 +76,11 @@ func (f *fper) walk(v reflect.Value, depth int) {
 		}
 		return
 	}
+	if t.Kind() == reflect.Struct && t.Name() == "Map" && strings.HasSuffix(t.PkgPath(), "/zzverif/vsync") {
+		// the sync.Map shim holds data, not lock bookkeeping: its contents are state
+		f.walk(v.FieldByName("m"), depth+1)
+		return
+	}
 	if t.Kind() == reflect.Struct && skipType(t) {
 		f.b.WriteString("~")
 		return
